@@ -1,7 +1,11 @@
 (* Call trees over two peers: local big-step semantics and the two-endpoint message machine of rpyc
    (requests/replies with sequence numbers, re-entrant serve while waiting, an idle serving loop).
-   A node runs on a peer, calls its children in order (each on either peer), may catch a child's failure,
-   and finally returns a value computed from its children's results or raises. *)
+   A node runs on a peer, calls its children in order (each on either peer), may catch a child's failure - all of them, or
+   those of the classes its except clause names -, and finally returns a value computed from its children's results or raises
+   an exception of some class. An exception is the raiser's number with the linearised ancestry (MRO) of its class, as class
+   numbers; a clause naming class b catches it iff b occurs in that ancestry (Python's isinstance test). What an exception looks
+   like after crossing the connection is a parameter [xw] of the machine (the identity when classes are reproduced by the
+   receiver; the generic stand-in's ancestry for classes the receiver is configured not to reproduce). *)
 From V Require Import lib.Base lib.Sx.
 From Coq Require Import Arith Relations String.
 
@@ -15,36 +19,42 @@ Lemma side_eqb_eq a b : side_eqb a b = true -> a = b. Proof. destruct a, b; simp
 Lemma side_neq_other a b : side_eqb a b = false -> a = other b. Proof. destruct a, b; simpl; congruence. Qed.
 Lemma other_other s : other (other s) = s. Proof. now destruct s. Qed.
 
-Inductive node := Node (s:side) (id:nat) (kids:list (node * bool)) (raises:bool).
+Definition exn := (nat * list nat)%type.
+Inductive catch := CatchAll | CatchOnly (cs : list nat).      (* CatchOnly [] catches nothing *)
+Definition catches (c : catch) (e : exn) : bool :=
+  match c with CatchAll => true | CatchOnly cs => existsb (fun b => existsb (Nat.eqb b) (snd e)) cs end.
+Inductive node := Node (s:side) (id:nat) (kids:list (node * catch)) (raises:list nat).     (* raises = [] : returns *)
 Definition nside n := match n with Node s _ _ _ => s end.
 Definition nid n := match n with Node _ i _ _ => i end.
 Definition nkids n := match n with Node _ _ k _ => k end.
 Definition nraises n := match n with Node _ _ _ r => r end.
-Inductive outcome := Val (v:nat) | Exc (e:nat).
-Definition finish (n:node) (acc:nat) : outcome := if nraises n then Exc (nid n) else Val (nid n + acc).
+Inductive outcome := Val (v:nat) | Exc (e:exn).
+Definition finish (n:node) (acc:nat) : outcome := match nraises n with [] => Val (nid n + acc) | m => Exc (nid n, m) end.
+Definition cross (xw : list nat -> list nat) (o : outcome) : outcome :=
+  match o with Val v => Val v | Exc e => Exc (fst e, xw (snd e)) end.
 
 (* ---------- local semantics: one process ---------- *)
 Fixpoint eval (n:node) : list nat * outcome :=
   match n with Node s i kids r =>
-    let '(l,o) := (fix go (ks:list (node*bool)) (acc:nat) : list nat * outcome :=
+    let '(l,o) := (fix go (ks:list (node*catch)) (acc:nat) : list nat * outcome :=
       match ks with
       | [] => ([], finish (Node s i kids r) acc)
       | (k,c)::ks' =>
           let '(l1,o) := eval k in
           match o with
           | Val v => let '(l2,o2) := go ks' (acc+v) in (l1++l2, o2)
-          | Exc e => if c then let '(l2,o2) := go ks' acc in (l1++l2, o2) else (l1, Exc e)
+          | Exc e => if catches c e then let '(l2,o2) := go ks' acc in (l1++l2, o2) else (l1, Exc e)
           end
       end) kids 0 in (i::l, o)
   end.
-Fixpoint evalk (n:node) (ks:list (node*bool)) (acc:nat) : list nat * outcome :=
+Fixpoint evalk (n:node) (ks:list (node*catch)) (acc:nat) : list nat * outcome :=
   match ks with
   | [] => ([], finish n acc)
   | (k,c)::ks' =>
       let '(l1,o) := eval k in
       match o with
       | Val v => let '(l2,o2) := evalk n ks' (acc+v) in (l1++l2, o2)
-      | Exc e => if c then let '(l2,o2) := evalk n ks' acc in (l1++l2, o2) else (l1, Exc e)
+      | Exc e => if catches c e then let '(l2,o2) := evalk n ks' acc in (l1++l2, o2) else (l1, Exc e)
       end
   end.
 Lemma eval_evalk n : eval n = let '(l,o) := evalk n (nkids n) 0 in (nid n :: l, o).
@@ -53,15 +63,57 @@ Proof.
   match goal with |- (let '(l,o) := ?g kids 0 in _) = _ =>
     assert (H: forall ks acc, g ks acc = evalk (Node s i kids r) ks acc) end.
   { induction ks as [|[k c] ks IH]; intros acc; [reflexivity|]. cbn [evalk].
-    destruct (eval k) as [l1 [v|e]]; [now rewrite IH| destruct c; [now rewrite IH|reflexivity]]. }
+    destruct (eval k) as [l1 [v|e]]; [now rewrite IH| destruct (catches c e); [now rewrite IH|reflexivity]]. }
   now rewrite H.
 Qed.
+
+(* ---------- the same evaluation when a failure that passes from a callee on one peer to its caller on the other is seen
+   through [xw] (what the connection does to an exception's class). A node other than the root runs on the peer it names; the
+   root runs on A. With xw the identity this is [eval] (evalx_id). ---------- *)
+Section Crossing.
+Variable xw : list nat -> list nat.
+Definition seen_by (s : side) (k : node) (o : outcome) : outcome := if side_eqb (nside k) s then o else cross xw o.
+Fixpoint evalx (n:node) : list nat * outcome :=
+  match n with Node s i kids r =>
+    let '(l,o) := (fix go (ks:list (node*catch)) (acc:nat) : list nat * outcome :=
+      match ks with
+      | [] => ([], finish (Node s i kids r) acc)
+      | (k,c)::ks' =>
+          let '(l1,o0) := evalx k in
+          match seen_by s k o0 with
+          | Val v => let '(l2,o2) := go ks' (acc+v) in (l1++l2, o2)
+          | Exc e => if catches c e then let '(l2,o2) := go ks' acc in (l1++l2, o2) else (l1, Exc e)
+          end
+      end) kids 0 in (i::l, o)
+  end.
+Fixpoint evalkx (s:side) (n:node) (ks:list (node*catch)) (acc:nat) : list nat * outcome :=
+  match ks with
+  | [] => ([], finish n acc)
+  | (k,c)::ks' =>
+      let '(l1,o0) := evalx k in
+      match seen_by s k o0 with
+      | Val v => let '(l2,o2) := evalkx s n ks' (acc+v) in (l1++l2, o2)
+      | Exc e => if catches c e then let '(l2,o2) := evalkx s n ks' acc in (l1++l2, o2) else (l1, Exc e)
+      end
+  end.
+Lemma evalx_evalkx n : evalx n = let '(l,o) := evalkx (nside n) n (nkids n) 0 in (nid n :: l, o).
+Proof.
+  destruct n as [s i kids r]. cbn [evalx nkids nid nside].
+  match goal with |- (let '(l,o) := ?g kids 0 in _) = _ =>
+    assert (H: forall ks acc, g ks acc = evalkx s (Node s i kids r) ks acc) end.
+  { induction ks as [|[k c] ks IH]; intros acc; [reflexivity|]. cbn [evalkx].
+    destruct (evalx k) as [l1 o0]. destruct (seen_by s k o0) as [v|e]; [now rewrite IH| destruct (catches c e); [now rewrite IH|reflexivity]]. }
+  now rewrite H.
+Qed.
+(* the whole program: the root runs on A whatever side it names *)
+Definition evalroot (root : node) : list nat * outcome := let '(l,o) := evalkx SA root (nkids root) 0 in (nid root :: l, o).
+End Crossing.
 
 (* ---------- distributed machine: two endpoints, message queues, re-entrant serve ---------- *)
 Inductive msg := Req (seq:nat) (n:node) | Rep (seq:nat) (o:outcome).
 Inductive frame :=
-| FRun (reply_to:option nat) (n:node) (rest:list (node*bool)) (acc:nat)
-| FCall (reply_to:option nat) (n:node) (rest:list (node*bool)) (acc:nat) (catch:bool)
+| FRun (reply_to:option nat) (n:node) (rest:list (node*catch)) (acc:nat)
+| FCall (reply_to:option nat) (n:node) (rest:list (node*catch)) (acc:nat) (c:catch)
 | FRet (reply_to:option nat) (o:outcome)
 | FWait (seq:nat).
 Record peer := { stack : list frame; nseq : nat; inbox : list msg }.
@@ -70,6 +122,9 @@ Definition upd (f:side -> peer) (s:side) (p:peer) : side -> peer := fun t => if 
 Definition mk (f:side->peer) l r := {| peers := f; log := l; result := r |}.
 Definition send (f:side->peer) (to:side) (m:msg) :=
   upd f to {| stack := stack (f to); nseq := nseq (f to); inbox := inbox (f to) ++ [m] |}.
+
+Section Machine.
+Variable xw : list nat -> list nat.
 
 Inductive pstep (s:side) : sys -> sys -> Prop :=
 | st_fin f l res r n acc K q ib :
@@ -97,15 +152,15 @@ Inductive pstep (s:side) : sys -> sys -> Prop :=
 | st_ret_remote f l res rq o K q ib :
     f s = {| stack := FRet (Some rq) o :: K; nseq := q; inbox := ib |} ->
     pstep s (mk f l res)
-            (mk (send (upd f s {| stack := K; nseq := q; inbox := ib |}) (other s) (Rep rq o)) l res)
+            (mk (send (upd f s {| stack := K; nseq := q; inbox := ib |}) (other s) (Rep rq (cross xw o))) l res)
 | st_ret_val f l res v r n ks acc c K q ib :
     f s = {| stack := FRet None (Val v) :: FCall r n ks acc c :: K; nseq := q; inbox := ib |} ->
     pstep s (mk f l res) (mk (upd f s {| stack := FRun r n ks (acc+v) :: K; nseq := q; inbox := ib |}) l res)
-| st_ret_caught f l res e r n ks acc K q ib :
-    f s = {| stack := FRet None (Exc e) :: FCall r n ks acc true :: K; nseq := q; inbox := ib |} ->
+| st_ret_caught f l res e r n ks acc c K q ib :
+    f s = {| stack := FRet None (Exc e) :: FCall r n ks acc c :: K; nseq := q; inbox := ib |} -> catches c e = true ->
     pstep s (mk f l res) (mk (upd f s {| stack := FRun r n ks acc :: K; nseq := q; inbox := ib |}) l res)
-| st_ret_uncaught f l res e r n ks acc K q ib :
-    f s = {| stack := FRet None (Exc e) :: FCall r n ks acc false :: K; nseq := q; inbox := ib |} ->
+| st_ret_uncaught f l res e r n ks acc c K q ib :
+    f s = {| stack := FRet None (Exc e) :: FCall r n ks acc c :: K; nseq := q; inbox := ib |} -> catches c e = false ->
     pstep s (mk f l res) (mk (upd f s {| stack := FRet r (Exc e) :: K; nseq := q; inbox := ib |}) l res)
 | st_root f l o q ib :
     f s = {| stack := [FRet None o]; nseq := q; inbox := ib |} ->
@@ -135,11 +190,11 @@ Definition pstep_fun (s : side) (y : sys) : option sys :=
       | Req rq k :: ib' => Some (mk (upd f s {| stack := [FRun (Some rq) k (nkids k) 0]; nseq := q; inbox := ib' |}) (l ++ [nid k]) res)
       | _ => None
       end
-  | FRet (Some rq) o :: K => Some (mk (send (upd f s {| stack := K; nseq := q; inbox := ib |}) (other s) (Rep rq o)) l res)
+  | FRet (Some rq) o :: K => Some (mk (send (upd f s {| stack := K; nseq := q; inbox := ib |}) (other s) (Rep rq (cross xw o))) l res)
   | FRet None o :: FCall r n ks acc c :: K =>
       match o with
       | Val v => Some (mk (upd f s {| stack := FRun r n ks (acc + v) :: K; nseq := q; inbox := ib |}) l res)
-      | Exc e => if c then Some (mk (upd f s {| stack := FRun r n ks acc :: K; nseq := q; inbox := ib |}) l res)
+      | Exc e => if catches c e then Some (mk (upd f s {| stack := FRun r n ks acc :: K; nseq := q; inbox := ib |}) l res)
                  else Some (mk (upd f s {| stack := FRet r (Exc e) :: K; nseq := q; inbox := ib |}) l res)
       end
   | [FRet None o] =>
@@ -150,41 +205,61 @@ Definition pstep_fun (s : side) (y : sys) : option sys :=
   | _ => None
   end.
 
+End Machine.
+
 Definition idle := {| stack := []; nseq := 0; inbox := [] |}.
 Definition init (root : node) : sys :=
   mk (fun t => match t with SA => {| stack := [FRun None root (nkids root) 0]; nseq := 0; inbox := [] |} | SB => idle end)
      [nid root] None.
 
 (* run with an A-first scheduler until nothing moves *)
-Fixpoint exec (fuel : nat) (y : sys) : sys :=
+Fixpoint exec (xw : list nat -> list nat) (fuel : nat) (y : sys) : sys :=
   match fuel with
   | O => y
-  | S f => match pstep_fun SA y with
-           | Some y' => exec f y'
-           | None => match pstep_fun SB y with Some y' => exec f y' | None => y end
+  | S f => match pstep_fun xw SA y with
+           | Some y' => exec xw f y'
+           | None => match pstep_fun xw SB y with Some y' => exec xw f y' | None => y end
            end
   end.
 
-(* ---- harness interface: a tree as nested lists [side; id; kids [[child; catch]...]; raises] ---- *)
+(* what crossing the connection does to an exception's class, as a table: classes listed are replaced by the ancestry given
+   (the receiver's stand-in), all others are reproduced *)
+Fixpoint xw_table (tbl : list (nat * list nat)) (m : list nat) : list nat :=
+  match m with
+  | [] => []
+  | c :: _ => match tbl with
+              | [] => m
+              | (c', m') :: t => if Nat.eqb c c' then m' else xw_table t m
+              end
+  end.
+
+(* ---- harness interface: a tree as nested lists [side; id; kids [[child; catch]...]; raises [class numbers]];
+        catch = [1] (everything) or [0; [class numbers]]; table = [[class; [class numbers]]...] ---- *)
+Definition catch_of_sx (x : sx) : catch :=
+  match x with SL [SI 1] => CatchAll | SL [SI 0; SL cs] => CatchOnly (map sx_nat cs) | _ => CatchOnly [] end%Z.
+Definition dummy := Node SA 0 [] [].
 Fixpoint node_of_sx (fuel : nat) (x : sx) : node :=
   match fuel with
-  | O => Node SA 0 [] false
+  | O => dummy
   | S f =>
     match x with
-    | SL [sd; i; SL kids; r] =>
+    | SL [sd; i; SL kids; SL r] =>
         Node (if sx_bool sd then SB else SA) (sx_nat i)
-             (map (fun kc => match kc with SL [k; c] => (node_of_sx f k, sx_bool c) | _ => (Node SA 0 [] false, false) end) kids)
-             (sx_bool r)
-    | _ => Node SA 0 [] false
+             (map (fun kc => match kc with SL [k; c] => (node_of_sx f k, catch_of_sx c) | _ => (dummy, CatchOnly []) end) kids)
+             (map sx_nat r)
+    | _ => dummy
     end
   end.
-Definition sx_outcome (o : outcome) : sx := match o with Val v => SL [SI 0; snat v] | Exc e => SL [SI 1; snat e] end.
+Definition table_of_sx (x : sx) : list (nat * list nat) :=
+  match x with SL l => map (fun e => match e with SL [c; SL m] => (sx_nat c, map sx_nat m) | _ => (0, []) end) l | _ => [] end.
+Definition sx_outcome (o : outcome) : sx :=
+  match o with Val v => SL [SI 0; snat v] | Exc e => SL [SI 1; snat (fst e); SL (map snat (snd e))] end.
 Definition run_calltree (x : sx) : sx :=
   match x with
-  | SL [fuel; depth; t] =>
+  | SL [fuel; depth; t; tbl] =>
       let root := node_of_sx (sx_nat depth) t in
       let '(ll, lo) := eval root in
-      let y := exec (sx_nat fuel) (init root) in
+      let y := exec (xw_table (table_of_sx tbl)) (sx_nat fuel) (init root) in
       SL [SL (map snat ll); sx_outcome lo; SL (map snat (log y));
           match result y with Some o => SL [sx_outcome o] | None => SL [] end;
           snat (List.length (stack (peers y SA)) + List.length (stack (peers y SB)) + List.length (inbox (peers y SA)) + List.length (inbox (peers y SB)))]
